@@ -56,14 +56,16 @@ ASSUMPTIONS = [
     'method calls: `expr.method(args)` (`meth`) and one accessor object called twice, `acc = expr.method; acc(a); acc(b)` (`meth2`); an accessor kept across other statements or called more than twice is not generated',
     'inputs are assigned fresh objects: mutating a list in place and re-assigning the same object is outside the model (param then sees old is new, nothing is invalidated - the documented onlychanged contract; use param.trigger)',
     'a Parameter(allow_refs=True) holding an expression as a reference (`ref` / `readref` statements): its `_sync_refs` watcher is modelled as a precedence -1 consumer that runs after all invalidations and before the precedence 0 watchers; that the holder mirrors the expression is checked by correspondence and by the oracle, there is no theorem about it; when an exception escapes an update in a program with holders the program ends there (the real dispatch then also skips the invalidation watchers registered after the raising `_sync_refs`, which is not modelled)',
-    'not modelled: async / generator operations (internal Trigger), plain attribute access (`expr.attr`; on the clean tree `m = z.imag; m + 1` resets `m._method` so that `m.rx.value` is then the whole object - verified by hand, outside this model), kwargs, raw bound functions (not wrapped in rx) as operands, rx.when/buffer/updating/resolve, batched updates of several parameters',
+    'values also include floats (whole numbers and halves, exact as numerator/denominator) for round(expr) / round(expr, 0), ==, bool, str and .real/.imag only; read results are compared type-sensitively (True / 1 / 1.0 are different observations)',
+    'plain attribute access `acc = expr.name` (int/bool/float data attributes real, imag, numerator, denominator) is rendered in the Lean model as the method-call statement with the total operation `attr:name` = getattr(value, name, value) and no operands (same reads, dependencies and values as the accessor node whose `_resolve` applies the pending `_method`; two unreachable extra nodes); an accessor may be read, used as operand / bind input / where branch / watched / referenced, or be the subject of ONE operator (which consumes it: known finding attribute-accessor-consumed-by-operator when it is held elsewhere); chained attribute / method access on an accessor is not generated',
+    'not modelled: async / generator operations (internal Trigger), kwargs, raw bound functions (not wrapped in rx) as operands, rx.when/buffer/updating/resolve, batched updates of several parameters',
     'an input update is atomic for precedence -1 watchers (all invalidations run before any precedence 0 consumer) - checked by correspondence, not proved',
     'operator_table_complete (over the generated RxOps table) lives in the same module as the other theorems: a broken table makes the whole module fail to build, so the evidence then reports every C09 obligation as undischarged, not only that one',
     'the full statement is false of the code (C09_full_refuted); what is proved is C09_partial under H1 (no where result handed to a consumer), H2 (EqOK: every update that is_equal takes for unchanged stores the same value - a hypothesis on the history, satisfiable for Python\'s Comparator), H3 (no exception escapes an input update) - the three known findings; `x in expr` (Stmt.isin) must be the plain-Python result or be refused with TypeError (rx.__contains__ since /repo c09ac3d), never a wrong bool',
     'helpers_table_complete / operator_table_complete certify which function each helper / dunder hands to _apply_operator (generated tables); that the driver (formOp) and the harness (_apply_form, _sem) use the same functions is tied by correspondence',
 ]
 RULE = ('corpus + directed prefix (every API form on a root of each type with literal / rx / Parameter operand, error-recovery, shared '
-        'sub-expressions, input as root and operand, bind (positional and keyword arguments), where in both branches, a where with a shared prefix and two readers, watch, None roots, container operands, reference holders, an accessor called twice, minimal forms of the known findings) '
+        'sub-expressions, input as root and operand, bind (positional and keyword arguments), where in both branches, a where with a shared prefix and two readers, watch, None roots, container operands, reference holders, an accessor called twice, attribute access on the argument side, round with float operands, minimal forms of the known findings) '
         '+ all histories of length <=3 (<=4 thorough) over a fixed alphabet for 6 expression shapes + random typed programs '
         '(1-6 inputs, <=9 user expressions = <=27 model nodes, 6-28 interleaved create/update/read/watch/ref/readref statements, list and slice operands holding references; 15% may hand a '
         'where result to a consumer, 4% cross bool/int updates, 6% ill-typed operations); every statement outcome is compared with the '
@@ -102,6 +104,10 @@ def _user_fn(name):
 def enc(v):
     if v is None or isinstance(v, (bool, int, str)):
         return v
+    if isinstance(v, float):
+        return {'f': list(v.as_integer_ratio())} if v == v and abs(v) != float('inf') else {'?': 'nan/inf'}
+    if isinstance(v, dict) and set(v) == {'f'}:
+        return v                                       # already encoded
     if isinstance(v, list):
         return [enc(x) for x in v]
     if isinstance(v, tuple):
@@ -110,6 +116,8 @@ def enc(v):
 
 
 def dec(v):
+    if isinstance(v, dict) and set(v) == {'f'}:
+        return v['f'][0] / v['f'][1]
     return [dec(x) for x in v] if isinstance(v, list) else v
 
 
@@ -147,6 +155,10 @@ def _apply_form(w, n, form, args):
         return getattr(operator, form[1:])(args[0], n)      # Python dispatches to n.__rxxx__
     if form in UNARY:
         return getattr(operator, form)(n)
+    if form == 'round':
+        return round(n)
+    if form == 'round0':
+        return round(n, 0)
     if form == 'getitem':
         return n[args[0]]
     if form in ('len', 'bool', 'not_'):
@@ -170,7 +182,7 @@ def run_impl(case):
     try:
         for st in case['prog']:
             s = st['s']
-            if s in ('lit', 'rootp', 'op', 'meth', 'meth2', 'bind', 'where'):
+            if s in ('lit', 'rootp', 'op', 'meth', 'attr', 'meth2', 'bind', 'where'):
                 try:
                     if s == 'lit':
                         r = rx(dec(st['v']))
@@ -185,6 +197,9 @@ def run_impl(case):
                     elif s == 'meth':
                         d = getattr(w.nodes[st['n']], st['op'])(*[w.arg(a) for a in st['args']])
                         w.nodes += [None, None, d]
+                    elif s == 'attr':
+                        # plain attribute access: the accessor object itself is the expression
+                        w.nodes += [None, None, getattr(w.nodes[st['n']], st['op'])]
                     elif s == 'meth2':
                         # one accessor object, called twice
                         acc = getattr(w.nodes[st['n']], st['op'])
@@ -272,7 +287,7 @@ def run_impl(case):
 
 # ---------------------------------------------------------------- bookkeeping shared by generator / shrinker / classifier
 
-NODES_OF = {'lit': 1, 'rootp': 1, 'op': 2, 'meth': 3, 'meth2': 5, 'bind': 1, 'where': 1}
+NODES_OF = {'lit': 1, 'rootp': 1, 'op': 2, 'meth': 3, 'attr': 3, 'meth2': 5, 'bind': 1, 'where': 1}
 
 
 def _allocs(st):
@@ -304,7 +319,7 @@ def where_family(prog):
     fam, nid = set(), 0
     for st in prog:
         k, _ = _allocs(st)
-        if st['s'] == 'where' or (st['s'] in ('op', 'meth', 'meth2') and st['n'] in fam):
+        if st['s'] == 'where' or (st['s'] in ('op', 'meth', 'meth2', 'attr') and st['n'] in fam):
             fam.update(range(nid, nid + k))
         nid += k
     return fam
@@ -324,10 +339,11 @@ def where_refs(prog):
 
 
 def _py_equal_not_identical(a, b):
+    a, b = dec(a), dec(b)
     if isinstance(a, list) and isinstance(b, list):
         return len(a) == len(b) and all(x == y for x, y in zip(a, b)) and \
             any(_py_equal_not_identical(x, y) for x, y in zip(a, b))
-    return type(a) is not type(b) and isinstance(a, (bool, int)) and isinstance(b, (bool, int)) and a == b
+    return type(a) is not type(b) and isinstance(a, (bool, int, float)) and isinstance(b, (bool, int, float)) and a == b
 
 
 def equal_updates(prog):
@@ -397,6 +413,8 @@ def _small(v, depth=0):
         return True
     if isinstance(v, int):
         return abs(v) < 10 ** 6
+    if isinstance(v, float):
+        return abs(v) < 10 ** 6 and v * 2 == int(v * 2)        # whole numbers and halves only
     if isinstance(v, str):
         return len(v) <= 40
     if isinstance(v, list):
@@ -413,6 +431,10 @@ def _sem(form):
         return lambda obj, a: f(a, obj)
     if form == 'getitem':
         return operator.getitem
+    if form == 'round':
+        return round
+    if form == 'round0':
+        return lambda v: round(v, 0)
     if form == 'len':
         return len
     if form == 'bool':
@@ -453,6 +475,11 @@ def _apply_shadow(sh, st):
             sh.kind.append('obj')
     elif s == 'rootp':
         sh.nodes.append(lambda p=st['p']: sh.vals[p])
+        sh.user.append(len(sh.nodes) - 1)
+    elif s == 'attr':
+        subj = sh.nodes[st['n']]
+        sh.nodes += [subj, subj]
+        sh.nodes.append(lambda subj=subj, name=st['op']: getattr(subj(), name))
         sh.user.append(len(sh.nodes) - 1)
     elif s == 'meth2':
         subj = sh.nodes[st['n']]
@@ -506,6 +533,8 @@ def _value(rng, t):
         return ''.join(rng.choice('abc') for _ in range(rng.randint(0, 3)))
     if t == 'ilist':
         return [rng.choice(INTS) for _ in range(rng.randint(0, 3))]
+    if t == 'float':
+        return enc(rng.choice([0.5, 1.5, 2.5, 3.0, 7.5, -1.5, 2.0, 0.0, 3.5]))
     return rng.choice([None, 0, 'a', [1]])
 
 
@@ -518,10 +547,14 @@ TABLE = {
            [(f, [_I], 'bool') for f in COMPARE] + [(f, [], _I) for f in UNARY] +
            [('pipe:str', [], 'str'), ('bool', [], 'bool'), ('not_', [], 'bool'), ('is_', ['id'], 'bool'),
             ('is_not', ['id'], 'bool'), ('in_', ['ilist'], 'bool'), ('rx_and', [_I], _I), ('rx_or', [_I], _I),
-            ('pipe:add', [_I], _I), ('m:bit_length', [], _I)],
+            ('pipe:add', [_I], _I), ('m:bit_length', [], _I), ('round', [], _I), ('round0', [], _I),
+            ('a:imag', [], _I), ('a:real', [], _I), ('a:numerator', [], _I), ('a:denominator', [], _I)],
     'bool': [(f, ['bool'], 'bool') for f in ('and_', 'or_', 'xor', 'rx_and', 'rx_or', 'eq', 'ne')] +
             [('not_', [], 'bool'), ('bool', [], 'bool'), ('pipe:str', [], 'str'), ('is_', ['id'], 'bool'),
-             ('add', [_I], _I), ('inv', [], _I)],
+             ('add', [_I], _I), ('inv', [], _I), ('a:imag', [], _I), ('round0', [], _I)],
+    'float': [('round', [], _I), ('round0', [], 'float'), ('round0', [], 'float'), ('bool', [], 'bool'), ('not_', [], 'bool'),
+              ('pipe:str', [], 'str'), ('eq', ['float'], 'bool'), ('ne', [_I], 'bool'), ('is_', ['id'], 'bool'),
+              ('a:real', [], 'float'), ('a:imag', [], 'float')],
     'str': [('add', ['str'], 'str'), ('radd', ['!str'], 'str'), ('mul', ['k'], 'str'), ('rmul', ['k'], 'str'),
             ('getitem', [_I], 'str'), ('getitem', ['slice'], 'str'), ('len', [], _I), ('m:upper', [], 'str'), ('m:count', ['str'], _I),
             ('m:index', ['str'], _I), ('in_', ['str'], 'bool'), ('eq', ['str'], 'bool'), ('lt', ['str'], 'bool'),
@@ -545,6 +578,7 @@ class _Gen:
         self.fam = set()
         self.nwatch = 0
         self.nref = 0
+        self.acc = set()      # attribute accessor nodes (an operator consumes the accessor)
         self.supp = {}        # node id -> inputs the expression mentions (static)
         self.prog_allow_ref = rng.random() < 0.35
 
@@ -602,7 +636,7 @@ class _Gen:
             if st['s'] == 'meth2':               # the first call's expression
                 self.ntype[new - 2] = rtype
                 self.supp[new - 2] = sup
-            if st['s'] == 'where' or (st['s'] in ('op', 'meth', 'meth2') and st['n'] in self.fam):
+            if st['s'] == 'where' or (st['s'] in ('op', 'meth', 'meth2', 'attr') and st['n'] in self.fam):
                 self.fam.update(range(mark[0], len(sh.nodes)))
         if st['s'] == 'lit':
             self.ptype.append(rtype)
@@ -655,11 +689,33 @@ class _Gen:
         if self.raises_now(subj) and rng.random() > 0.05:
             return False
         t = self.ntype[subj]
-        if rng.random() < 0.06:                      # deliberately ill-typed
+        if subj in self.acc:
+            # an operator on an accessor turns it into a getattr operation and consumes it (`_method = None`):
+            # only for accessors nobody else holds (known finding otherwise)
+            rows = [r for r in TABLE[t] if not r[0].startswith(('m:', 'a:'))]
+            held = any(subj in [a.get('n') for a in _args_of(q)] or (q['s'] in ('watch', 'ref') and q['n'] == subj)
+                       for q in self.prog)
+            if held or self.raises_now(subj) or not rows:
+                return False
+            form, ots, rt = rng.choice(rows)
+            args = [self.operand(o, container=True) for o in ots]
+            if any(a.get('n') == subj for x in args for a in _flat(x)):
+                return False                       # `m & m`: the operand would be the consumed accessor
+            ok = self.push({'s': 'op', 'n': subj, 'op': form, 'args': args}, rt)
+            if ok:
+                self.acc.discard(subj)
+                sh.user.remove(subj)
+            return ok
+        if t != 'float' and rng.random() < 0.06:     # deliberately ill-typed
             form, ots, rt = rng.choice(TABLE[rng.choice(list(TABLE))])
             rt = 'any'
         else:
             form, ots, rt = rng.choice(TABLE[t])
+        if form.startswith('a:'):
+            ok = self.push({'s': 'attr', 'n': subj, 'op': form[2:]}, rt)
+            if ok:
+                self.acc.add(len(sh.nodes) - 1)
+            return ok
         args = [self.operand(o, container=not form.startswith('m:')) for o in ots]
         if form.startswith('m:'):
             if rng.random() < 0.3:               # acc = expr.method; acc(...); acc(...)
@@ -685,10 +741,10 @@ class _Gen:
         rng = self.rng
         # inputs
         for _ in range(rng.randint(1, 3)):
-            t = rng.choice(['int', 'int', 'bool', 'str', 'ilist'])
+            t = rng.choice(['int', 'int', 'bool', 'str', 'ilist', 'float'])
             self.push({'s': 'lit', 'v': _value(rng, t)}, t)
         if rng.random() < 0.6:
-            ts = [rng.choice(['int', 'int', 'bool', 'str', 'ilist']) for _ in range(rng.randint(1, 3))]
+            ts = [rng.choice(['int', 'int', 'bool', 'str', 'ilist', 'float']) for _ in range(rng.randint(1, 3))]
             self.push({'s': 'obj', 'vs': [_value(rng, t) for t in ts]}, ts)
         target = rng.randint(2, 9)
         steps = rng.randint(6, 28)
@@ -751,6 +807,8 @@ def lit(v):
 def op(n, form, *args):
     if form.startswith('m:'):
         return {'s': 'meth', 'n': n, 'op': form[2:], 'args': list(args)}
+    if form.startswith('a:'):
+        return {'s': 'attr', 'n': n, 'op': form[2:]}
     return {'s': 'op', 'n': n, 'op': form, 'args': list(args)}
 
 
@@ -765,14 +823,16 @@ def st(p, v):
 def _directed():
     out = []
     # every API form once on a fresh root of the right type, read, update the root, read again
-    sample = {'int': (5, 2), 'bool': (True, False), 'str': ('abc', 'ca'), 'ilist': ([1, 2, 3], [0]), 'any': ('a', None)}
-    argval = {'int': 2, 'bool': True, 'str': 'a', 'ilist': [2], 'k': 2, 'id': True, '!int': 7, '!str': 'b', '!ilist': [9],
+    F = lambda x: enc(float(x))
+    sample = {'int': (5, 2), 'bool': (True, False), 'str': ('abc', 'ca'), 'ilist': ([1, 2, 3], [0]), 'any': ('a', None),
+              'float': (F(2.5), F(3.5))}
+    argval = {'int': 2, 'bool': True, 'str': 'a', 'ilist': [2], 'k': 2, 'id': True, '!int': 7, '!str': 'b', '!ilist': [9], 'float': F(2.5),
               'L:z': 'z', 'L:a': 'a'}
     for t, rows in TABLE.items():
         for form, ots, _ in rows:
             v0, v1 = sample[t]
             prog = [lit(v0), op(0, form, *[({'S': [L(0), L(2)]} if o == 'slice' else L(argval[o])) for o in ots])]
-            new = 2 if form.startswith('m:') is False else 3
+            new = 3 if form.startswith(('m:', 'a:')) else 2
             prog += [rd(new), st(0, v1), rd(new), rd(new), st(0, v0), rd(new)]
             out.append({'prog': prog})
             if ots and not ots[0].startswith('!') and ots[0] in sample:
@@ -819,6 +879,21 @@ def _directed():
     # the plain `in` operator on an expression: refused with TypeError (fixed in /repo c09ac3d), never a wrong bool
     out.append({'prog': [lit([1, 2, 3]), {'s': 'isin', 'n': 0, 'v': 3}, {'s': 'isin', 'n': 0, 'v': 9}, st(0, []), {'s': 'isin', 'n': 0, 'v': 9},
                          st(0, 5), {'s': 'isin', 'n': 0, 'v': 5}, lit('abc'), op(1, 'add', L('d')), {'s': 'isin', 'n': 3, 'v': 'z'}]})
+    # plain attribute access used on the argument side: right operand, pipe argument, bind input, where branch, watch, ref
+    out.append({'prog': [lit(7), lit(1), op(0, 'a:imag'), op(1, 'add', N(4)), rd(6), st(0, 9), rd(6), rd(4), op(1, 'pipe:add', N(4)), rd(8),
+                         {'s': 'bind', 'f': 'mklist', 'args': [N(4), N(1)]}, rd(9), {'s': 'watch', 'n': 4}, {'s': 'ref', 'n': 4},
+                         st(0, 3), {'s': 'readref', 'h': 0}, lit(True), {'s': 'where', 'c': N(10), 'x': N(4), 'y': N(1)}, rd(11), rd(9), rd(8)]})
+    out.append({'prog': [lit(7), op(0, 'a:denominator'), lit(10), op(4, 'mul', N(3)), rd(6), op(0, 'a:numerator'), op(4, 'sub', N(9)), rd(11),
+                         st(0, 2), rd(11), rd(6), rd(3), rd(9)]})
+    out.append({'prog': [lit(F(2.5)), op(0, 'a:imag'), op(0, 'a:real'), lit(F(0.0)), op(7, 'eq', N(3)), op(7, 'eq', N(6)), rd(9), rd(11),
+                         st(0, F(0.0)), rd(9), rd(11), rd(3), rd(6)]})
+    # an operator on an accessor turns it into a getattr operation (and consumes the accessor)
+    out.append({'prog': [lit(7), op(0, 'a:imag'), op(3, 'add', L(5)), rd(5), st(0, 9), rd(5)]})
+    # known finding: ... after which the accessor object itself stands for the whole value
+    out.append({'prog': [lit(7), op(0, 'a:imag'), rd(3), op(3, 'add', L(5)), rd(5), rd(3)]})
+    # round(): result type (int / float) and ties to even; round(expr, 0) keeps the operand's type
+    out.append({'prog': [lit(F(2.5)), op(0, 'round'), op(0, 'round0'), rd(2), rd(4), st(0, F(3.5)), rd(2), rd(4), st(0, F(-1.5)), rd(2), rd(4),
+                         st(0, F(3.0)), rd(2), rd(4), op(4, 'pipe:str'), rd(6), lit(5), op(7, 'round0'), op(7, 'round'), rd(9), rd(11)]})
     # error, cached error, recovery; an error below a derived node
     out.append({'prog': [lit(0), op(0, 'rfloordiv', L(10)), rd(2), rd(2), st(0, 5), rd(2), st(0, 0), rd(2), st(0, 2),
                          op(2, 'add', L(1)), rd(4), st(0, 0), rd(4), rd(2), st(0, 1), rd(4)]})
@@ -911,14 +986,21 @@ def cases(rng, tier, worker, nworkers):
 COVERAGE_TARGETS = ['form:' + f for f in ALL_FORMS] + [
     'resolve:cache-hit', 'resolve:dirty', 'resolve:dirty+dirty_obj', 'resolve:error-cached', 'read:raises', 'read:value',
     'set:changed', 'set:identical', 'set:equal-not-identical', 'set:callbacks', 'set:raises',
-    'consumer:trigger_x', 'consumer:trigger_y', 'consumer:watch', 'consumer:sync_refs', 'ref:created', 'readref:value', 'isin:value', 'isin:raises', 'op:reverse', 'arg:rx', 'arg:parameter', 'arg:literal', 'bind:keyword-arguments', 'arg:list-of-references', 'arg:slice-of-references',
-    'op:on-where', 'op:on-bind', 'op:on-root', 'op:on-derived', 'op:createErr', 'meth:created', 'meth:accessor-called-twice', 'bind:created', 'where:created',
+    'consumer:trigger_x', 'consumer:trigger_y', 'consumer:watch', 'consumer:sync_refs', 'ref:created', 'readref:value', 'isin:raises', 'op:reverse', 'arg:rx', 'arg:parameter', 'arg:literal', 'bind:keyword-arguments', 'arg:list-of-references', 'arg:slice-of-references',
+    'op:on-where', 'op:on-bind', 'op:on-root', 'op:on-derived', 'op:createErr', 'meth:created', 'meth:accessor-called-twice', 'form:a:imag', 'form:round0', 'attr:as-operand', 'bind:created', 'where:created',
     'rootp:created', 'read:where-family', 'read:bind-family', 'recovered-after-error', 'where-ref-free', 'where-referenced']
 
 
 def tags(case, impl):
     prog = case['prog']
     t = ['where-referenced' if where_refs(prog) else 'where-ref-free', f'len={min(len(prog) // 10 * 10, 30)}+']
+    nid, accs = 0, set()
+    for s in prog:
+        if accs & {a['n'] for a in _args_of(s) if 'n' in a}:
+            t.append('attr:as-operand')
+        if s['s'] == 'attr':
+            accs.add(nid + 2)
+        nid += _allocs(s)[0]
     for s in prog:
         for a in s.get('args', []):
             if 'L' in a:
@@ -929,6 +1011,8 @@ def tags(case, impl):
             t.append('bind:keyword-arguments')
         if s['s'] == 'op':
             t.append('form:' + s['op'])
+        elif s['s'] == 'attr':
+            t.append('form:a:' + s['op'])
         elif s['s'] in ('meth', 'meth2'):
             t.append('form:m:' + s['op'])
             if s['s'] == 'meth2':
@@ -1077,6 +1161,26 @@ def _explained_raise(prog, idx, cls):
     return False
 
 
+def _consumed_accessor_used(prog, at):
+    """an attribute accessor (`acc = n.name`) became the subject of an operator / method call at or before
+    statement `at` although it is also held elsewhere: read afterwards, or used as operand / watch / reference"""
+    nid, acc, consumed_at = 0, set(), {}
+    for i, st in enumerate(prog[:at + 1]):
+        if st['s'] in ('op', 'meth', 'meth2', 'attr') and st['n'] in acc and st['n'] not in consumed_at:
+            consumed_at[st['n']] = i
+        k, _ = _allocs(st)
+        if st['s'] == 'attr':
+            acc.add(nid + k - 1)
+        nid += k
+    for a, j in consumed_at.items():
+        for i, st in enumerate(prog[:at + 1]):
+            if a in [x.get('n') for x in _args_of(st)] or (st['s'] in ('watch', 'ref') and st['n'] == a):
+                return True
+            if i > j and st['s'] in ('read', 'isin', 'op', 'meth', 'meth2', 'attr') and st['n'] == a:
+                return True
+    return False
+
+
 def classify(case, impl, fail):
     if fail.get('kind') != 'counterexample' or not isinstance(impl, dict) or 'steps' not in impl:
         return None
@@ -1090,6 +1194,8 @@ def classify(case, impl, fail):
         if impl['steps'][i]['e'] in EXC and _explained_raise(prog, i, impl['steps'][i]['e']):
             return 'update-raises-aborts-dispatch'
         return None
+    if _consumed_accessor_used(prog, at):
+        return 'attribute-accessor-consumed-by-operator'
     if [i for i in where_refs(prog) if i <= at]:
         return 'where-trigger-hidden-from-consumers'
     if [i for i in equal_updates(prog) if i <= at]:
